@@ -63,6 +63,10 @@ var DV = [
   function(g,k,p){ return RES(function(){ return GoCall(g,k,p); }); },
   function(g,k,p){ return RES(function(){ var r; for (var q of [1]) { var dg = DG(g,k,p); dg.next(); try { with (WO) { wr = dg.next(q).value; } } finally { r = WO.wr; } } return r; }); }
 ];
+// host contexts with 3 and 7 caller try frames at the call depth of the driver call: the try stack is a Go slice whose
+// capacity doubles, so whether pushing one more frame re-allocates it depends on this depth (eae3f2a, 4bb92ea)
+DV.push(function(g,k,p){ return RES(function(){ var r; try { try { try { r = CALL(g,k,p); } finally { p = 1; } } catch (e) { throw e; } } finally { p = 2; } return r; }); });
+DV.push(function(g,k,p){ return RES(function(){ var r; try { try { try { try { try { try { try { r = CALL(g,k,p); } finally { p = 1; } } finally { p = 2; } } catch (e) { throw e; } } finally { p = 3; } } finally { p = 4; } } catch (e) { throw e; } } finally { p = 5; } return r; }); });
 function MKGEN1(){ var r; for (var q of [1,2]) { r = (function(a){ return [a, GEN()][1]; })(q); break; } return r; }
 function MKA1(){ var r; for (var q of [1,2]) { r = (function(a){ return [a, AGEN()][1]; })(q); break; } return r; }
 function DEC(s){ var c = s.charAt(0), r = s.substring(1); return c==="u" ? undefined : c==="i" ? +r : c==="N" ? NaN : r; }
@@ -114,7 +118,8 @@ type req struct {
 }
 
 type resp struct {
-	Traces []string    `json:"traces"`
+	Traces  []string    `json:"traces"`
+	Layouts []string    `json:"layouts,omitempty"`
 	Mech   [][2]string `json:"mech,omitempty"`
 	Idle   string      `json:"idle"`
 	Err    string      `json:"err,omitempty"`
@@ -122,6 +127,7 @@ type resp struct {
 
 type prober struct {
 	rt          *goja.Runtime
+	layouts     []string           // per command of the current history: try-stack layout of the saved execCtx ("" if not suspended)
 	lastA       *goja.VerifC09Dump // dump taken just before the yield, during the current command
 	lastSaved   *goja.VerifC09Dump // saved execCtx of the previous suspension if it was a probed yield
 	pendSaved   *goja.VerifC09Dump
@@ -212,6 +218,30 @@ func run(line string) string {
 		return goja.Undefined()
 	})
 	rt.Set("CMDEND", func(call goja.FunctionCall) goja.Value {
+		lay := ""
+		if call.Argument(0).ToBoolean() {
+			gobj, _ := rt.Get("G").(*goja.Object)
+			if sd := goja.VerifC09Saved(gobj); sd.OK {
+				var sb strings.Builder
+				sb.WriteString("[")
+				for i, f := range sd.Frames {
+					if i > 0 {
+						sb.WriteString(",")
+					}
+					c, fn := "-", "-"
+					if f.CatchPos >= 0 {
+						c = "c"
+					}
+					if f.FinallyPos >= 0 {
+						fn = "f"
+					}
+					fmt.Fprintf(&sb, "%s%s:%d", c, fn, f.IterLen)
+				}
+				fmt.Fprintf(&sb, "]%d", sd.SavedIter)
+				lay = sb.String()
+			}
+		}
+		pr.layouts = append(pr.layouts, lay)
 		if rq.Probe && call.Argument(0).ToBoolean() && pr.lastA != nil {
 			gobj, _ := rt.Get("G").(*goja.Object)
 			s := goja.VerifC09Saved(gobj)
@@ -243,6 +273,7 @@ func run(line string) string {
 	flush, _ := goja.AssertFunction(rt.Get("FLUSH"))
 	aget, _ := goja.AssertFunction(rt.Get("AGET"))
 	for i, h := range rq.Hists {
+		pr.layouts = pr.layouts[:0]
 		tr := common.Safe(func() string {
 			v, err := fn(goja.Undefined(), rt.ToValue(h), rt.ToValue(rq.Depths[i]), rt.ToValue(rq.Create[i]))
 			if err != nil {
@@ -266,6 +297,9 @@ func run(line string) string {
 			return v.String()
 		})
 		out.Traces = append(out.Traces, tr)
+		if rq.Mode != "async" {
+			out.Layouts = append(out.Layouts, strings.Join(pr.layouts, ";"))
+		}
 		sp, cl, il, rl, tl := goja.VerifC09VMLens(rt)
 		if (sp != sp0 || cl != cl0 || il != il0 || rl != rl0 || tl != tl0) && out.Idle == "ok" {
 			out.Idle = fmt.Sprintf("hist %d: sp %d->%d call %d->%d iter %d->%d ref %d->%d try %d->%d", i, sp0, sp, cl0, cl, il0, il, rl0, rl, tl0, tl)
